@@ -99,7 +99,32 @@ def main(argv=None):
         return replay_graph(body, verbose)
     _env.setup()
     mod = importlib.import_module('vmc.props.' + body['property'].lower())
-    return mod.replay_case(body, verbose)
+    if hasattr(mod, 'replay_case'):
+        try:
+            return mod.replay_case(body, verbose)
+        except (KeyError, TypeError, ValueError, IndexError) as err:
+            # the module's own replay does not know this kind of case: run the scenario again instead
+            print('(%s: %s - running the scenario again)' % (type(err).__name__, err))
+    return replay_enum(mod, body, verbose)
+
+
+def replay_enum(mod, body, verbose):
+    '''An enumeration scenario without a replay function of its own: the recorded case is printed and the
+    scenario (a deterministic enumeration on fresh real objects, no explorer involved) is run again;
+    the recorded violation counts as reproduced when a violation of the same kind is reported again.'''
+    scen = body['scenario']
+    want = body['violation']
+    print('property %s, scenario %s (%s)' % (body['property'], scen['name'], scen.get('runner')))
+    print('recorded case: %r' % (body.get('case'),))
+    print('recorded violation: %s/%s: %s' % (want['monitor'], want['kind'], str(want['detail'])[:600 if not verbose else 4000]))
+    func = getattr(mod, scen['runner'])
+    res = func(scen.get('params') or {}, None)
+    seen = res.get('violations', [])
+    for v in seen:
+        print('  observed %s/%s: %s' % (v['monitor'], v['kind'], str(v['detail'])[:300 if not verbose else 4000]))
+    hit = [v for v in seen if v['kind'] == want['kind'] and v['monitor'] == want['monitor']]
+    print('replay: %d cases evaluated, %d violations observed, recorded one %s' % (res.get('evaluations', 0), len(seen), 'REPRODUCED' if hit else 'not reproduced'))
+    return 1 if hit else 0
 
 
 if __name__ == '__main__':
